@@ -219,6 +219,175 @@ impl Monitor for TwinMon {
     }
 }
 
+// ---------------------------------------------------------------------------
+// processing order: events in order, each against the machines in index order
+
+pub struct OrderMon {
+    ended: Vec<bool>,
+    checked: u64,
+}
+
+impl OrderMon {
+    pub fn new(case: &FwCase) -> OrderMon {
+        OrderMon {
+            ended: vec![false; case.machines.len()],
+            checked: 0,
+        }
+    }
+}
+
+fn external_kind(e: Event) -> Option<u64> {
+    Some(match e {
+        Event::NormalRecv => 0,
+        Event::PaddingRecv => 1,
+        Event::TunnelRecv => 2,
+        Event::NormalSent => 3,
+        Event::PaddingSent => 4,
+        Event::TunnelSent => 5,
+        Event::BlockingBegin => 6,
+        Event::BlockingEnd => 7,
+        Event::TimerBegin => 10,
+        Event::TimerEnd => 11,
+        Event::LimitReached | Event::CounterZero | Event::Signal => return None,
+    })
+}
+fn ev_external_kind(e: Ev) -> u64 {
+    match e {
+        Ev::NR => 0,
+        Ev::PR => 1,
+        Ev::TR => 2,
+        Ev::NS => 3,
+        Ev::PS(_) => 4,
+        Ev::TS => 5,
+        Ev::BB(_) => 6,
+        Ev::BE => 7,
+        Ev::TB(_) => 10,
+        Ev::TE(_) => 11,
+    }
+}
+
+impl Monitor for OrderMon {
+    fn after_call(
+        &mut self,
+        case: &FwCase,
+        _k: usize,
+        call: &Call,
+        out: &CallOut,
+        stats: &mut Stats,
+    ) -> Option<(String, String)> {
+        let m = case.machines.len();
+        // walk the log; (event index, next machine index) is the delivery expected next
+        let mut ei = 0usize;
+        let mut mi_next = 0usize;
+        let mut advance = |ei: &mut usize, mi_next: &mut usize, ended: &Vec<bool>| -> Option<(usize, usize)> {
+            // next expected (event index, machine) given who has ended so far
+            loop {
+                let e = *call.ev.get(*ei)?;
+                match e {
+                    Ev::PS(id) | Ev::TB(id) | Ev::TE(id) => {
+                        // addressed to one machine only
+                        let id = id as usize;
+                        if *mi_next == 0 && id < m && !ended[id] {
+                            *mi_next = usize::MAX; // consumed marker
+                            return Some((*ei, id));
+                        }
+                        *ei += 1;
+                        *mi_next = 0;
+                    }
+                    _ => {
+                        if *mi_next == usize::MAX {
+                            *ei += 1;
+                            *mi_next = 0;
+                            continue;
+                        }
+                        while *mi_next < m && ended[*mi_next] {
+                            *mi_next += 1;
+                        }
+                        if *mi_next < m {
+                            let r = (*ei, *mi_next);
+                            *mi_next += 1;
+                            return Some(r);
+                        }
+                        *ei += 1;
+                        *mi_next = 0;
+                    }
+                }
+            }
+        };
+        // machines that end during the signal round still count as live for the events
+        // of this call (all of which precede the round)
+        let mut ended_in_round: Vec<usize> = vec![];
+        let mut in_round = false;
+        for r in &out.log {
+            match r {
+                Rec::Ended { mi } if *mi < m => {
+                    if in_round {
+                        ended_in_round.push(*mi);
+                    } else {
+                        self.ended[*mi] = true;
+                    }
+                }
+                Rec::SignalRoundStart => in_round = true,
+                Rec::Deliver { mi, event } => {
+                    let Some(kind) = external_kind(*event) else {
+                        continue;
+                    };
+                    if in_round {
+                        return Some((
+                            "processing-order".into(),
+                            format!("{event:?} delivered to machine {mi} after the signal round had begun"),
+                        ));
+                    }
+                    self.checked += 1;
+                    // addressed events leave the per-event cursor at the marker
+                    if mi_next == usize::MAX {
+                        ei += 1;
+                        mi_next = 0;
+                    }
+                    let want = advance(&mut ei, &mut mi_next, &self.ended);
+                    let ok = match want {
+                        Some((j, wm)) => wm == *mi && ev_external_kind(call.ev[j]) == kind,
+                        None => false,
+                    };
+                    if !ok {
+                        return Some((
+                            "processing-order".into(),
+                            format!(
+                                "{:?} was delivered to machine {mi} where the order 'events in order, each against the machines in index order' prescribes {}",
+                                event,
+                                match want {
+                                    Some((j, wm)) => format!("{:?} to machine {wm}", call.ev[j]),
+                                    None => "nothing more".to_string(),
+                                }
+                            ),
+                        ));
+                    }
+                }
+                _ => {}
+            }
+        }
+        // nothing may be left undelivered (except to machines that have ended)
+        if mi_next == usize::MAX {
+            ei += 1;
+            mi_next = 0;
+        }
+        if let Some((j, wm)) = advance(&mut ei, &mut mi_next, &self.ended) {
+            return Some((
+                "processing-order".into(),
+                format!("{:?} was never delivered to live machine {wm}", call.ev[j]),
+            ));
+        }
+        for mi in ended_in_round {
+            self.ended[mi] = true;
+        }
+        stats.probe_if("order_checked_multi_machine_batch", m >= 2 && call.ev.len() >= 2);
+        None
+    }
+    fn nontrivial(&self) -> bool {
+        self.checked > 0
+    }
+}
+
 pub struct Multi(pub Vec<Box<dyn Monitor>>);
 impl Monitor for Multi {
     fn start(&mut self, case: &FwCase, snap: &maybenot::verif::Snapshot) {
@@ -340,7 +509,7 @@ impl FwProp for C05 {
             property: "C05",
             engine: "fwsim",
             level: "exploration",
-            rule: "two kinds of case: (a) wild machines under a fair seeded stream, run as original + identically built twin + mid-history clone, actions compared call by call; (b) det-family machines (fair stream) or dyadic-family machines (const-per-call words incl. words on/next to every k/64 threshold) run in lock-step with the executable reference semantics, comparing actions, current state, counters and remaining limit after every call; histories come from the closed loop with report-channel and clock faults, 1..4 machines, <=120 calls, plus a dense small scope (1..3 machines x 1..3 states x <=6 calls); distinct = hash of per-call (event kinds, action kinds); non-trivial = at least one returned action (a) resp. a state change and a returned action while compared (b)".into(),
+            rule: "two kinds of case: (a) wild machines under a fair seeded stream, run as original + identically built twin + mid-history clone, actions compared call by call; (b) det-family machines (fair stream) or dyadic-family machines (const-per-call words incl. words on/next to every k/64 threshold) run in lock-step with the executable reference semantics, comparing actions, current state, counters and remaining limit after every call; histories come from the closed loop with report-channel and clock faults, 1..4 machines, <=120 calls, plus a dense small scope (1..3 machines x 1..3 states x <=6 calls); (c) in every case the H1 log must show the external events of a call delivered in order, each to the live machines in index order (addressed events to their machine only); distinct = hash of per-call (event kinds, action kinds); non-trivial = at least one returned action (a) resp. a state change and a returned action while compared (b)".into(),
             assumptions: vec![
                 "the reference semantics is hand-written from lib.rs / action.rs / counter.rs documentation and the property statements; where those are silent it mirrors the implementation".into(),
                 "Dist::sample is a trusted leaf of the reference (attacked separately by C13)".into(),
@@ -402,11 +571,15 @@ impl FwProp for C05 {
     fn monitor(&self, case: &FwCase) -> Box<dyn Monitor> {
         if case.extra["ref"].as_bool().unwrap_or(false) {
             Box::new(Multi(vec![
+                Box::new(OrderMon::new(case)),
                 Box::new(RefMon::new(case)),
                 Box::new(TwinMon::new(case)),
             ]))
         } else {
-            Box::new(TwinMon::new(case))
+            Box::new(Multi(vec![
+                Box::new(OrderMon::new(case)),
+                Box::new(TwinMon::new(case)),
+            ]))
         }
     }
 }
